@@ -1,6 +1,7 @@
 package main
 
 import (
+	"regexp"
 	"flag"
 	"fmt"
 	"go/ast"
@@ -35,6 +36,7 @@ type Ctx struct {
 	usedUniqueErr map[string]bool
 	contractErrors []string
 	errGlobals map[*ssa.Global]bool
+	mod        *modInfo
 	worldReach map[*ssa.Function]bool // functions that can reach a denied primitive
 	guardExpr  string                 // while verifying an "effects guarded" function: its guard expression
 	constInit  map[*ssa.Global]map[int]*ssa.Const // immutable struct globals: field index -> constant stored by init (-1 = whole scalar)
@@ -105,6 +107,33 @@ func loadCtx(repo, contracts string) (*Ctx, error) {
 		return nil, err
 	}
 	c.cf = cf
+	// "ensuresall": one postcondition for every function whose name matches
+	for _, ea := range cf.EnsuresAll {
+		re, err := regexp.Compile("^(" + ea.Re + ")$")
+		if err != nil {
+			return nil, fmt.Errorf("ensuresall line %d: %v", ea.Line, err)
+		}
+		var names []string
+		for name, fn := range c.funcs {
+			if re.MatchString(name) && fn.Blocks != nil {
+				names = append(names, name)
+			}
+		}
+		sort.Strings(names)
+		for _, name := range names {
+			fc := cf.Funcs[name]
+			if fc == nil {
+				fc = &FuncContract{Name: name}
+				cf.Funcs[name] = fc
+				cf.Order = append(cf.Order, name)
+			}
+			if ea.Invariant {
+				fc.Clauses = append(fc.Clauses, &Clause{Kind: "invariant", Props: []string{ea.Prop}, Label: ea.Label, Expr: ea.Expr, Loop: -2, Line: ea.Line})
+			} else {
+				fc.Clauses = append(fc.Clauses, &Clause{Kind: "ensures", Props: []string{ea.Prop}, Label: ea.Label, Expr: ea.Expr, Loop: -1, Line: ea.Line})
+			}
+		}
+	}
 	for _, ti := range cf.TypeInvs {
 		if ti.Stable {
 			for _, f := range ti.Fields {
